@@ -90,6 +90,20 @@ class GroupRef:
         self.bc2 = 1.0
         self.gbc2 = 1.0
 
+    # ---- checkpoint of the optimizer state (parameters are not part of it) ----
+    _FIELDS = ("cev", "filt", "mom", "gacc")
+
+    def save_state(self):
+        return [{"fac": {k: v.clone() for k, v in b.fac.items()}, "root": {k: v.clone() for k, v in b.root.items()},
+                 **{f: (getattr(b, f).clone() if getattr(b, f) is not None else None) for f in self._FIELDS}} for b in self.blocks]
+
+    def load_state(self, saved):
+        for b, sv in zip(self.blocks, saved):
+            b.fac = {k: v.clone() for k, v in sv["fac"].items()}
+            b.root = {k: v.clone() for k, v in sv["root"].items()}
+            for f in self._FIELDS:
+                setattr(b, f, sv[f].clone() if sv[f] is not None else None)
+
     def root_for(self, order: int) -> float:
         ov = self.hp["override"]
         default = (2 * order) if self.hp["kind"] == "shampoo" else 2
